@@ -653,3 +653,151 @@ def feature_folds(P, rep, rule="FOLD"):
                             rep.violation(rule, "%s writes %s into the tag slot" % (F.qn, norm.render(P, v)[:50]), F.nloc(x), F.qn, norm.render(P, x)[:100],
                                           "the reported tag is not the covering feature's", key="%s|%s|tag" % (rule, F.qn), witness="tag request inside the feature")
     rep.floor(rule, n, 18, "model folds and tag writes in the 6 features")
+
+
+# ------------------------------------------------------------------------------------------------
+def cooling_formulas(P, rep, rule="EXPR.cooling"):
+    """closed forms of the cooling models and the Gaussian plume, from the published model descriptions"""
+    from .expr import Block, eq
+    rep.rule(rule, "half space: T_b + (T_t - T_b) erfc(d / (2 sqrt(kappa * dist/v))); plate model: T_t + (T_b - T_t) d/L + sum_{n>=1} (T_b - T_t) "
+                   "(2/(n pi)) sin(n pi d/L) exp((vL/(2 kappa) - sqrt(v^2 L^2/(4 kappa^2) + n^2 pi^2)) v age/L) with age = dist/v; constant-age plate: the "
+                   "same with exp(-n^2 pi^2 kappa age/L^2); Gaussian plume: T_c exp(-rho/(2 sigma^2)); (dist, v) are elements 1 and 0 of the ridge "
+                   "routine's result, kappa the world's thermal diffusivity")
+    Tt, Tb, d, L, kap, v, dist, age = sp.symbols("Tt Tb d L kappa v dist age", positive=True)
+
+    ctx = {}
+
+    def mk_hook(F, extra=None):
+        def hook(n):
+            if n.get("k") == "MemberExpr" and astq.is_this_field(P, n):
+                m = {"top_temperature": Tt, "bottom_temperature": Tb, "max_depth": L, "plate_age": age}.get(n.get("n"))
+                if m is not None:
+                    return m
+            if n.get("k") == "MemberExpr" and n.get("n") == "thermal_diffusivity" and "world" in norm.render(P, n):
+                return kap
+            if n.get("k") == "DeclRefExpr" and n.get("n") == "depth" and P.d(n["r"]).get("storage") == "param":
+                return d
+            if n.get("k") == "DeclRefExpr" and P.d(n["r"]).get("qn") == "WorldBuilder::Consts::PI":
+                return sp.pi
+            s = astq.subscript(n)
+            if s and sc(s[0]).get("n") == "ridge_parameters" and sc(s[1]).get("k") == "IntegerLiteral":
+                return {0: v, 1: dist}.get(sc(s[1])["v"])
+            if n.get("k") == "ConditionalOperator":
+                c = norm.render(P, n["c"][0], nocast=True).replace(" ", "")
+                if c in ("(age>0)", "(0<age)"):
+                    return ctx["sym"](n["c"][1])
+            if extra:
+                return extra(n)
+            return None
+        return hook
+
+    def choose(c):
+        t = norm.render(P, c, nocast=True).replace(" ", "")
+        if re.match(r"^\(\w+_local<0\)$", t) or re.match(r"^\(\w+<0\)$", t):
+            return False       # parameters given (sentinels are N1's business)
+        return True
+
+    def run(F, extra=None, loops=False):
+        B = Block(P, F, choose=choose, hook=mk_hook(F, extra))
+        B.sym.inline_locals = True
+        ctx["sym"] = B.sym
+        if loops:
+            B.loops = []
+        B.run(astq.stmts_of(F.body))
+        return B
+
+    def value_of(B, F):
+        rets = [sc(r["c"][0]) for r in F.walk() if r.get("k") == "ReturnStmt" and r.get("c") and is_apply_operation(P, sc(r["c"][0]))]
+        if len(rets) != 1:
+            return None
+        X = sc(rets[0]["c"][3])
+        if X.get("k") == "DeclRefExpr":
+            return B.state.get(("var", ("v", X["r"])))
+        return B.sym(X)
+
+    n_ok = 0
+    # half space
+    for F in P.funcs_named("WorldBuilder::Features::OceanicPlateModels::Temperature::HalfSpaceModel::get_temperature"):
+        n_ok += 1
+        try:
+            B = run(F)
+            val = value_of(B, F)
+        except AnalysisBroken as e:
+            rep.unknown(rule, "%s: %s" % (F.qn, e))
+            continue
+        want = Tb + (Tt - Tb) * sp.erfc(d / (2 * sp.sqrt(kap * dist / v)))
+        if val is not None and eq(val, want):
+            rep.ok(rule, "half space model = T_b + (T_t - T_b) erfc(d/(2 sqrt(kappa dist/v)))", F.loc, F.qn)
+        else:
+            rep.violation(rule, "half space model returns %s" % val, F.loc, F.qn, str(val)[:200], "expected %s" % want, key="%s|halfspace" % rule,
+                          witness="oceanic plate with a ridge, point away from the ridge")
+    # plate models
+    for qn, with_v in (("WorldBuilder::Features::OceanicPlateModels::Temperature::PlateModel::get_temperature", True),
+                       ("WorldBuilder::Features::OceanicPlateModels::Temperature::PlateModelConstantAge::get_temperature", False)):
+        for F in P.funcs_named(qn):
+            n_ok += 1
+            try:
+                B = run(F, loops=True)
+            except AnalysisBroken as e:
+                rep.unknown(rule, "%s: %s" % (F.qn, e))
+                continue
+            if len(B.loops) != 1 or len(B.loops[0]["delta"]) != 1:
+                rep.unknown(rule, "%s: series loop not recognised (%d loops)" % (F.qn, len(B.loops)))
+                continue
+            lp = B.loops[0]
+            n = lp["var"]
+            (key, delta), = lp["delta"].items()
+            base = lp["pre"][key]
+            a = dist / v
+            if with_v:
+                term = (Tb - Tt) * (2 / (n * sp.pi)) * sp.sin(n * sp.pi * d / L) * sp.exp((v * L / (2 * kap) - sp.sqrt(v ** 2 * L ** 2 / (4 * kap ** 2) + n ** 2 * sp.pi ** 2)) * (v * a / L))
+            else:
+                term = (Tb - Tt) * (2 / (n * sp.pi)) * sp.sin(n * sp.pi * d / L) * sp.exp(-n ** 2 * sp.pi ** 2 * kap * age / L ** 2)
+            wbase = Tt + (Tb - Tt) * d / L
+            init_ok = lp["init"] == 1
+            cnd = norm.render(P, lp["cond"], nocast=True).replace(" ", "")
+            mm = re.match(r"^\(\w+<\((\w+)\+1\)\)$", cnd) or re.match(r"^\(\w+<=(\w+)\)$", cnd)
+            ok = eq(delta, term) and eq(base, wbase) and init_ok and mm is not None
+            label = "plate model" if with_v else "constant-age plate model"
+            if ok:
+                rep.ok(rule, "%s: linear base + series term n = 1..N" % label, F.loc, F.qn)
+            else:
+                why = []
+                if not eq(base, wbase):
+                    why.append("base is %s" % base)
+                if not eq(delta, term):
+                    why.append("series term is %s" % delta)
+                if not init_ok or mm is None:
+                    why.append("series runs from %s under %s" % (lp["init"], cnd))
+                rep.violation(rule, "%s deviates: %s" % (label, "; ".join(why)[:300]), F.nloc(lp["node"]), F.qn, "", "expected base %s and term %s" % (wbase, term),
+                              key="%s|%s" % (rule, label.replace(" ", "-")), witness="oceanic plate, point at mid depth away from the ridge")
+    # gaussian plume
+    for F in P.funcs_named("WorldBuilder::Features::PlumeModels::Temperature::Gaussian::get_temperature"):
+        n_ok += 1
+        Tc, sig, rho = sp.symbols("Tc sigma rho", positive=True)
+
+        def extra(nn):
+            if nn.get("k") == "DeclRefExpr" and nn.get("n") == "center_temperature_local":
+                return Tc
+            if nn.get("k") == "DeclRefExpr" and nn.get("n") == "gaussian_sigma":
+                return sig
+            if nn.get("k") == "DeclRefExpr" and nn.get("n") == "relative_distance_from_center":
+                return rho
+            return None
+        rets = [sc(r["c"][0]) for r in F.walk() if r.get("k") == "ReturnStmt" and r.get("c") and is_apply_operation(P, sc(r["c"][0]))]
+        if len(rets) != 1:
+            rep.unknown(rule, "%s: apply_operation return" % F.qn)
+            continue
+        X = sc(rets[0]["c"][3])
+        init = X
+        if X.get("k") == "DeclRefExpr":
+            for x in F.walk():
+                if x.get("k") == "VarDecl" and x.get("r") == X["r"] and x.get("c"):
+                    init = x["c"][0]
+        val = norm.Sym(P, F, inline_locals=False, hook=mk_hook(F, extra))(init)
+        want = Tc * sp.exp(-rho / (2 * sig ** 2))
+        if eq(val, want):
+            rep.ok(rule, "gaussian plume = T_c exp(-rho/(2 sigma^2))", F.loc, F.qn)
+        else:
+            rep.violation(rule, "gaussian plume returns %s" % val, F.loc, F.qn, str(val)[:160], "expected %s" % want, key=rule + "|gaussian", witness="point off the plume axis")
+    rep.floor(rule, n_ok, 4, "cooling / plume closed forms")
